@@ -79,6 +79,7 @@ func runDirectedBatch(b *harness.B) {
 
 	// 2. every registered type at its zero / maximal / empty / nil value
 	c := &checker{b: b, rng: b.SubRng("directed")}
+	c.runPolicyDirected() // first, so that the isolated (minimal) policy witnesses are the ones kept
 	n := c.runDirected()
 	want := 0
 	for _, e := range Registry() {
@@ -92,7 +93,6 @@ func runDirectedBatch(b *harness.B) {
 		b.Inconclusive(fmt.Sprintf("only %d of %d registered types could be exercised", n, want))
 	}
 	c.runValues(b.Pick(6, 60))
-	c.runPolicyDirected()
 
 	// 3. the smallest update shapes (so that the first witness is minimal)
 	runShapes(b)
@@ -106,13 +106,13 @@ func run(b *harness.B) {
 		runDirectedBatch(b)
 	case "corrupt":
 		rng := b.SubRng("corrupt")
-		runAddressCorruption(b, rng, b.Pick(16, 150))
-		runIDCorruption(b, rng, b.Pick(4, 60))
+		runAddressCorruption(b, rng, b.Pick(100, 1000))
+		runIDCorruption(b, rng, b.Pick(25, 300))
 		runOtherCorruption(b, rng)
-		b.Sample(map[string]any{"kind": "corruption", "addresses_with_all_76_positions": b.Pick(16, 150), "replacement_characters_per_position": 28})
+		b.Sample(map[string]any{"kind": "corruption", "addresses_with_all_76_positions": b.Pick(100, 1000), "replacement_characters_per_position": 28})
 	case "values":
 		c := &checker{b: b, rng: b.SubRng("values")}
-		c.runValues(b.Pick(22, 300))
+		c.runValues(b.Pick(220, 4000))
 		_ = idx
 	case "histories":
 		runHistories(b, idx)
